@@ -306,7 +306,7 @@ func runC18(c *Ctx) {
 			_, eq := holds(e.Guards, wSame("proof[0] == serialized", `^\$2\[0\]$`, `^\$r\.[a-zA-Z.]*serialized$`))
 			c.check(emb || eq, "C18.own-hash-check", k+".prove yields its value", e.pos(), "embedded ∨ proof[0] == serialized", "a value is yielded without comparing the proof element with the node's own encoding; guards: "+guardsString(e.Guards))
 			if k == "leaf" {
-				c.requireGuard("C18.leaf-exact", "leaf.prove yields only on an exact key match", e.pos(), e.Guards, wTrue("exact match", `^ompt\.compareKeys\(\$r\.keys,\$1\)#1$`))
+				c.requireGuard("C18.leaf-exact", "leaf.prove yields only on an exact key match", e.pos(), e.Guards, wTrue("exact match", `^ompt\.compareKeys\((\$r\.keys,\$1|\$1,\$r\.keys)\)#1$`))
 				if eq {
 					c.requireGuard("C18.leaf-exact", "hashed leaf is the last proof element", e.pos(), e.Guards, wEQ("len(proof) == 1", -1, t(1, `^len\(\$2\)$`)))
 				}
@@ -318,9 +318,9 @@ func runC18(c *Ctx) {
 		switch k {
 		case "extension":
 			for _, d := range desc {
-				c.requireAt("C18.extension-prefix", "extension descends only when its whole key is a prefix", d.Instr, wGE("matched ≥ len(ext keys)", 0, t(1, `^ompt\.compareKeys\(\$r\.keys,\$1\)#0$`), t(-1, `^len\(\$r\.keys\)$`)))
+				c.requireAt("C18.extension-prefix", "extension descends only when its whole key is a prefix", d.Instr, wGE("matched ≥ len(ext keys)", 0, t(1, `^ompt\.compareKeys\((\$r\.keys,\$1|\$1,\$r\.keys)\)#0$`), t(-1, `^len\(\$r\.keys\)$`)))
 				_, a := callArgs(d.Common())
-				c.check(render(a[1]) == "$1[ompt.compareKeys($r.keys,$1)#0:]" && render(d.Common().Value) == "$r.next", "C18.extension-prefix", "extension passes the rest of the key to its subtree", d.Pos(), "next.prove(keys[cnt:])", "descends as "+render(d.Instr.Value()))
+				c.check((render(a[1]) == "$1[ompt.compareKeys($r.keys,$1)#0:]" || render(a[1]) == "$1[ompt.compareKeys($1,$r.keys)#0:]" || render(a[1]) == "$1[len($r.keys):]") && render(d.Common().Value) == "$r.next", "C18.extension-prefix", "extension passes the rest of the key to its subtree", d.Pos(), "next.prove(keys[cnt:])", "descends as "+render(d.Instr.Value()))
 			}
 			if len(desc) != 1 {
 				c.undecided("C18.extension-prefix", "extension.prove descent", pr.Pos(), fmt.Sprintf("%d descents", len(desc)))
